@@ -44,6 +44,13 @@ HEXH_ALPHA = [
 HEXH_RULES = [[{"mov": ops}] for ops in (["dh"], ["dh", "al"], ["al", "dh"], ["0xd"], ["dh", "0xd"], ["ah"], [0], [1, "al"])]
 
 
+# mnemonics that end in the letters of a segment register / prefix word (movss, lss, ...): the mnemonic vocabulary must not matter
+VOC_ALPHA = [("movss", ["%xmm1", "%xmm0"]), ("addss", ["%xmm2", "%xmm3"]), ("mov", ["%rax", "%rbx"]), ("lss", ["(%rax)", "%ebx"]),
+             ("cvtsi2ss", ["%eax", "%xmm1"]), ("lock", []), ("repz", []), ("data16", [])]
+VOC_RULES = [[n] for n in ("movss", "mov", "addss", "add", "ss", "lss", "l", "cvtsi2ss", "cvtsi2", "lock", "data16", "repz", "rep")] + \
+            [[{"movss": ["xmm1", "xmm0"]}], [{"mov": ["xmm1"]}], [{"cvtsi2ss": ["eax", "xmm1"]}], [{"lss": ["rax", "ebx"]}], ["movss", "addss"], ["mov", "add"]]
+
+
 def f1_rules(k):
     for mn in e1.MN_NAMES:
         for n in range(0, k + 1):
@@ -57,6 +64,7 @@ def all_rules(tier):
     rules += [("F2", [a, b]) for a in ITEM_POOL for b in ITEM_POOL]
     rules += [("F3", [a, b, c]) for a in SMALL_POOL for b in SMALL_POOL for c in SMALL_POOL]
     rules += [("F4", r) for r in HEXH_RULES]
+    rules += [("F5", r) for r in VOC_RULES]
     return rules
 
 
@@ -66,7 +74,7 @@ def rule_cases(tier):
     crlf = [("CRLF", pat, "crlf") for fam, pat in all_rules("quick") if fam == "F2"]
     if tier == "quick":
         for fam, pat in all_rules("quick"):
-            out.append((fam, pat, "hex" if fam == "F4" else "L3"))
+            out.append((fam, pat, {"F4": "hex", "F5": "voc"}.get(fam, "L3")))
         return out + crlf
     out += crlf
     for r in f1_rules(3):
@@ -74,7 +82,7 @@ def rule_cases(tier):
         out.append(("F1", r, "L3" if n_ops == 3 else "L4"))
     for fam, pat in all_rules("quick"):
         if fam != "F1":
-            out.append((fam, pat, "hex" if fam == "F4" else "L4"))
+            out.append((fam, pat, {"F4": "hex", "F5": "voc"}.get(fam, "L4")))
     return out
 
 
@@ -99,7 +107,7 @@ class CRLFListingSet(e1.ListingSet):
 
 def build_lsets(h, tier):
     ls = {"L3": e1.ListingSet(h, e1.ALPHA_MAIN, 3), "hex": e1.ListingSet(h, HEXH_ALPHA, 2),
-          "crlf": CRLFListingSet(h, e1.ALPHA_MAIN, 2)}
+          "crlf": CRLFListingSet(h, e1.ALPHA_MAIN, 2), "voc": e1.ListingSet(h, VOC_ALPHA, 2)}
     if tier == "thorough":
         ls["L4"] = e1.ListingSet(h, e1.ALPHA_MAIN, 4)
     return ls
@@ -144,7 +152,17 @@ def run_long(shard, tier, h, res, known):
                               "expected": want, "observed": got, "size": n}, known)
 
 
+LONGLIST = [(["mov", "push"], [("mov", ["%rax", "%rbx"]), ("push", ["%rax"])]),
+            ([{"mov": ["rax", "rbx"]}], [("mov", ["%rax", "%rbx"])]),
+            ([{"push": ["rax"]}, "ret", {"mov": ["rbx"]}], [("push", ["%rax"]), ("ret", []), ("mov", ["%rbx", "%rax"])])]
+
+
+def long_ns(tier):
+    return [8300, 32800, 40000] if tier == "quick" else [4200, 8300, 32800, 40000, 65600, 70001, 131200]
+
+
 def run_shard(shard, tier, h, res, known):
+    e1.run_long_family(h, res, known, shard, LONGLIST, long_ns(tier), prop=ID)
     run_long(shard, tier, h, res, known)
     cases = rule_cases(tier)
     lsets = e1.get_lsets(h, tier, build_lsets)
@@ -188,6 +206,8 @@ def controls(h):
 
 
 def replay(case, h):
+    if case.get("family") == "longlisting":
+        return e1.replay_long_case(case, h)
     if case.get("family") == "long":
         r = type("R", (), {"evaluations": 0, "nontrivial": 0, "fails": []})()
         r.fail = lambda c, k: r.fails.append(c)
